@@ -126,7 +126,12 @@ JParse(e) ==
   {"parse.total." \o r.o.kind : r \in {x \in R : x.o.kind \notin {"ok", "err"}}}
   \cup (IF \A a, b \in R : (a.layout # "escaped" /\ b.layout # "escaped") => a.o.kind = b.o.kind THEN {} ELSE {"parse.layout.outcome"})
   \cup (IF \A a, b \in ok : (a.layout = b.layout /\ a.mode = b.mode) => SameGraph(a, b) THEN {} ELSE {"parse.deterministic"})
-  \cup (IF \A a, b \in ok : (a.layout = b.layout /\ a.mode # b.mode) => SameGraph(a, b) THEN {} ELSE {"parse.auto-explicit"})
+  \cup (IF \A a, b \in ok : (a.layout = b.layout /\ a.mode # b.mode /\ {a.mode, b.mode} \subseteq {"auto", "explicit"}) => SameGraph(a, b)
+        THEN {} ELSE {"parse.auto-explicit"})
+  \* a parse does not depend on documents parsed (and rejected) before it
+  \cup (IF \A a \in {x \in R : x.mode = "auto-after-reject"}, b \in {x \in R : x.mode = "auto" /\ x.layout = "compact"} :
+              a.o.kind = b.o.kind /\ (a.o.kind = "ok" => SameGraph(a, b) /\ MetaF(a.doc, "id") = MetaF(b.doc, "id"))
+        THEN {} ELSE {"parse.history-dependent"})
   \cup (IF \A a, b \in ok : (a.layout # "escaped" /\ b.layout # "escaped") => SameGraph(a, b) THEN {} ELSE {"parse.layout"})
   \* string escapes: a separate clause because of the known finding in the third-party SPDX decoder
   \cup (IF \A a \in {x \in R : x.layout = "escaped"}, b \in {x \in R : x.layout = "compact"} :
@@ -213,6 +218,7 @@ Judge(e) ==
          (IF e.o.kind = "ok" THEN {} ELSE {"idgen.total"})
          \cup (IF e.nonempty /\ e.safe THEN {} ELSE {"idgen.alphabet"})
          \cup (IF e.usable /\ e.id1 # e.id2 THEN {"idgen.deterministic"} ELSE {})
+    [] e.op = "IDGENSWEEP" -> IF e.bad = <<>> THEN {} ELSE {"idgen.alphabet"}
     [] e.op = "SNIFF" -> JSniff(e)
     [] OTHER -> {"unknown-op." \o e.op}
 
